@@ -135,6 +135,7 @@ macro_rules! impl_clamp_hwb {
                 + crate::num::Clamp
                 + crate::num::PartialCmp
                 + core::ops::Add<Output = T>
+                + core::ops::Sub<Output = T>
                 + core::ops::DivAssign
                 + Clone,
             T::Mask: crate::bool_mask::Select<T>,
@@ -146,9 +147,15 @@ macro_rules! impl_clamp_hwb {
                 let mut blackness = crate::clamp_min(self.blackness.clone(), Self::min_blackness());
 
                 let sum = blackness.clone() + whiteness.clone();
-                let divisor = sum.gt(&T::max_intensity()).select(sum, T::one());
+                let divisor = sum.gt(&T::max_intensity()).select(sum.clone(), T::one());
                 whiteness /= divisor.clone();
                 blackness /= divisor;
+
+                // Rounding may leave the scaled sum slightly above the max intensity.
+                let blackness = sum.gt(&T::max_intensity()).select(
+                    crate::num::Clamp::clamp_max(blackness.clone(), T::max_intensity() - whiteness.clone()),
+                    blackness,
+                );
 
                 Self {hue: self.hue, whiteness, blackness $(, $phantom: self.$phantom)?}
             }
@@ -157,9 +164,11 @@ macro_rules! impl_clamp_hwb {
         impl<$($ty_param,)* T> crate::ClampAssign for $ty<$($ty_param,)* T>
         where
             T: crate::num::One
+                + crate::num::Clamp
                 + crate::num::ClampAssign
                 + crate::num::PartialCmp
                 + core::ops::Add<Output = T>
+                + core::ops::Sub<Output = T>
                 + core::ops::DivAssign
                 + Clone,
             T::Mask: crate::bool_mask::Select<T>,
@@ -171,9 +180,15 @@ macro_rules! impl_clamp_hwb {
                 crate::clamp_min_assign(&mut self.blackness, Self::min_blackness());
 
                 let sum = self.blackness.clone() + self.whiteness.clone();
-                let divisor = sum.gt(&T::max_intensity()).select(sum, T::one());
+                let divisor = sum.gt(&T::max_intensity()).select(sum.clone(), T::one());
                 self.whiteness /= divisor.clone();
                 self.blackness /= divisor;
+
+                // Rounding may leave the scaled sum slightly above the max intensity.
+                self.blackness = sum.gt(&T::max_intensity()).select(
+                    crate::num::Clamp::clamp_max(self.blackness.clone(), T::max_intensity() - self.whiteness.clone()),
+                    self.blackness.clone(),
+                );
             }
         }
     };
